@@ -169,12 +169,13 @@ class S:
 
 class Spec:
     def __init__(self, key):
-        _, role, tier = key
+        role, tier = key[1], key[2]
+        self.promised = len(key) > 3 and key[3] == "promised"     # variant: starts with a request open and a stream promised on it
         self.client = role == "client"
         self.tier = tier
-        self.name = "c05-api-%s-%s" % (role, tier)
-        self.max_depth = 6 if tier == "quick" else 8
-        self.max_streams = 2
+        self.name = "c05-api-%s%s-%s" % (role, "-promised" if self.promised else "", tier)
+        self.max_depth = (5 if self.promised else 6) if tier == "quick" else (7 if self.promised else 8)
+        self.max_streams = 1 if self.promised else 2
 
     def initial(self):
         st = S()
@@ -194,14 +195,21 @@ class Spec:
         st.ended = set()    # streams the peer ended (closed for receiving) that still have outstanding bytes
         st.nstreams = 0
         st.dead = False
+        st.resv = set()     # client role: promised streams whose response HEADERS have not arrived yet
+        st.npush = 0
         st.stuck = {}       # sid -> kind of the action after which the stream first had nothing of its own outstanding and a window <= 0
-        return [("start", st)]
+        if not self.promised:
+            return [("start", st)]
+        for lab in ("open", "rxpush:1"):
+            step = self.apply(st, lab)
+            assert not step.violations and not st.dead, lab
+        return [("open+promised", st)]
 
     def fingerprint(self, st):
         return fingerprint(st.h.conn, st.Ac, st.acked_iws, tuple(st.pending), tuple(sorted(st.As.items())),
                            tuple(sorted(st.out.items())), tuple(sorted(st.credit.items())), st.auto,
                            tuple(sorted(st.reset)), tuple(sorted(st.ended)), st.nstreams, st.dead,
-                           tuple(sorted(st.stuck.items())))
+                           tuple(sorted(st.stuck.items())), tuple(sorted(st.resv)), st.npush)
 
     def actions(self, st):
         if st.dead:
@@ -209,8 +217,12 @@ class Spec:
         acts = []
         if st.nstreams < self.max_streams:
             acts.append("open")
+        if self.client and st.npush < 1 and any(s % 2 and s not in st.ended for s in st.As):
+            acts.append("rxpush:%d" % min(s for s in st.As if s % 2 and s not in st.ended))
+        for sid in sorted(st.resv):
+            acts.append("rxresp:%d" % sid)
         for sid in sorted(st.As):
-            if sid in st.ended:
+            if sid in st.ended or sid in st.resv:
                 continue
             for L in ("1", "half", "fill"):
                 acts.append("data:%d:%s" % (sid, L))
@@ -225,6 +237,8 @@ class Spec:
                 acts.append("ack:%d:all" % sid)
                 if st.out[sid] > 1:
                     acts.append("ack:%d:half" % sid)
+                if st.out[sid] > 2000:
+                    acts.append("ack:%d:2000" % sid)      # more than the 1024-byte threshold, far less than half a window
         for sid in sorted(st.reset):
             for L in ("1", "fill"):
                 acts.append("rdata:%d:%s" % (sid, L))
@@ -321,6 +335,27 @@ class Spec:
                     st.ended.add(sid)
                 out = "data" + ("-es" if es else "")
             self._absorb(st, o, bad)
+        elif parts[0] == "rxpush":
+            parent = int(parts[1])
+            st.npush += 1
+            sid = 2 * st.npush
+            o = h.rx([wire.push_promise(parent, sid, sb(H.REQ))], ("push", parent, sid))
+            if o.kind != "ok" or o.frames:
+                bad("open-failed", "PUSH_PROMISE(%d -> %d): %s" % (parent, sid, o.brief()))
+                st.dead = True
+                return Step("open-failed", viols, prune=True)
+            st.As[sid] = st.acked_iws
+            st.out[sid] = 0
+            st.credit[sid] = 0
+            st.resv.add(sid)
+        elif parts[0] == "rxresp":
+            sid = int(parts[1])
+            o = h.rx([wire.headers(sid, sb(H.RESP))], ("headers", sid, False, False))
+            if o.kind != "ok" or o.frames:
+                bad("open-failed", "response HEADERS on promised stream %d: %s" % (sid, o.brief()))
+                st.dead = True
+                return Step("open-failed", viols, prune=True)
+            st.resv.discard(sid)
         elif parts[0] in ("pump", "rpump"):
             # a long run of small, heavily padded frames (1 payload byte, 255 of padding): a leak of a few bytes per
             # frame exhausts a window only after hundreds of frames.  On an open stream the application acknowledges
@@ -362,7 +397,7 @@ class Spec:
             out = parts[0]
         elif parts[0] == "ack":
             sid = int(parts[1])
-            n = st.out[sid] if parts[2] == "all" else st.out[sid] // 2
+            n = st.out[sid] if parts[2] == "all" else (2000 if parts[2] == "2000" else st.out[sid] // 2)
             o = h.api("acknowledge_received_data", n, sid)
             if o.kind != "ok":
                 bad("ack-refused", "acknowledge_received_data(%d, %d) -> %s" % (n, sid, o.brief()))
@@ -386,6 +421,7 @@ class Spec:
             del st.As[sid]
             st.credit.pop(sid, None)
             st.ended.discard(sid)
+            st.resv.discard(sid)
             st.reset.add(sid)
             self._absorb(st, o, bad)
         elif parts[0] == "iws":
@@ -412,7 +448,7 @@ class Spec:
             raise ValueError(lab)
         # ---- bookkeeping for signatures: since when has each stream been shut with nothing of its own outstanding
         for sid, a in st.As.items():
-            if st.acked_iws > 0 and a <= 0 and sid not in st.ended and not st.out.get(sid):
+            if st.acked_iws > 0 and a <= 0 and sid not in st.ended and sid not in st.resv and not st.out.get(sid):
                 st.stuck.setdefault(sid, parts[0])
             else:
                 st.stuck.pop(sid, None)
@@ -424,7 +460,7 @@ class Spec:
                 bad("deadlock", "after %s nothing is unacknowledged but the advertised connection window is %d" % (lab, st.Ac),
                     window="connection", after=parts[0])
             for sid, a in st.As.items():
-                if st.acked_iws > 0 and a <= 0 and sid not in st.ended:
+                if st.acked_iws > 0 and a <= 0 and sid not in st.ended and sid not in st.resv:
                     bad("deadlock", "after %s nothing is unacknowledged but stream %d advertises %d (maximum %d)" % (
                         lab, sid, a, st.acked_iws), window="stream", after=parts[0], stuck_since=st.stuck.get(sid, parts[0]))
         if viols:
@@ -455,3 +491,4 @@ def run(ctx):
                domain="WindowManager closure for max 0..%d, bounded for 8 large maxima" % cmax)
     for role in ("server", "client"):
         ctx.explore(("c05", role, ctx.tier), time_budget=None if quick else 500)
+    ctx.explore(("c05", "client", ctx.tier, "promised"), time_budget=None if quick else 300)
